@@ -72,6 +72,7 @@ func (f *PositionIf) Call(s *slip.Scope, args slip.List, depth int) (index slip.
 
 	switch ta := args[1].(type) {
 	case nil:
+		sfv.checkBounds(s, depth, 0)
 		// nothing found
 	case slip.List:
 		index = f.inList(s, ta, depth, &sfv)
@@ -88,14 +89,8 @@ func (f *PositionIf) Call(s *slip.Scope, args slip.List, depth int) (index slip.
 }
 
 func (f *PositionIf) inList(s *slip.Scope, seq slip.List, depth int, sfv *seqFunVars) slip.Object {
-	if len(seq) <= sfv.start {
-		return nil
-	}
-	if 0 <= sfv.end && sfv.end < len(seq) {
-		seq = seq[sfv.start:sfv.end]
-	} else {
-		seq = seq[sfv.start:]
-	}
+	sfv.checkBounds(s, depth, len(seq))
+	seq = seq[sfv.start:sfv.end]
 	d2 := depth + 1
 	if !sfv.fromEnd {
 		for i, element := range seq {
@@ -122,14 +117,8 @@ func (f *PositionIf) inList(s *slip.Scope, seq slip.List, depth int, sfv *seqFun
 
 func (f *PositionIf) inString(s *slip.Scope, seq slip.String, depth int, sfv *seqFunVars) slip.Object {
 	ra := []rune(seq)
-	if len(ra) <= sfv.start {
-		return nil
-	}
-	if 0 <= sfv.end && sfv.end < len(ra) {
-		ra = ra[sfv.start:sfv.end]
-	} else {
-		ra = ra[sfv.start:]
-	}
+	sfv.checkBounds(s, depth, len(ra))
+	ra = ra[sfv.start:sfv.end]
 	d2 := depth + 1
 	var key slip.Object
 	if !sfv.fromEnd {
@@ -157,14 +146,8 @@ func (f *PositionIf) inString(s *slip.Scope, seq slip.String, depth int, sfv *se
 
 func (f *PositionIf) inOctets(s *slip.Scope, seq slip.Octets, depth int, sfv *seqFunVars) slip.Object {
 	ba := []byte(seq)
-	if len(ba) <= sfv.start {
-		return nil
-	}
-	if 0 <= sfv.end && sfv.end < len(ba) {
-		ba = ba[sfv.start:sfv.end]
-	} else {
-		ba = ba[sfv.start:]
-	}
+	sfv.checkBounds(s, depth, len(ba))
+	ba = ba[sfv.start:sfv.end]
 	d2 := depth + 1
 	var key slip.Object
 	if !sfv.fromEnd {
